@@ -27,7 +27,7 @@ from .. import core
 from .. import ctxlib as cl
 from ..util import exc_name, reach_ids
 
-ACTIONS = ("GWalk", "GLast", "CWalk", "CLast", "S2D", "FParse", "FRender", "TStr",
+ACTIONS = ("GDNorm", "GWalk", "GLast", "CWalk", "CLast", "S2D", "FParse", "FRender", "TStr",
            "UMake", "UResolve", "UWalk", "USet", "DMake", "DEmpty", "DWalk", "DDel", "WFormat", "WUpdate")
 BAD_TEMPLATES = ("{{a}", "{{a}}}")       # unbalanced braces (format_context, format_update_with)
 BAD_JINJA = ("{{a}", "{{")    # template syntax errors (UpdateContext)
@@ -102,7 +102,7 @@ class Replay(object):
     # ------------------------------------------------------------ queries
     def rp_get(self, rec, val):
         c = rec["call"]
-        dflt = Default()
+        dflt = cl.default_object(c["o"]["dv"], Default())
         special = {"$default": dflt}
         exp = self.expected_values([rec], val, special)[0]
         for name, keys in cl.key_notations(c["path"]):
@@ -124,11 +124,71 @@ class Replay(object):
                     self.fail("get_recursively:%s:raised:%s" % (name, obs["exc"]), rec, context=snap, keys=keys)
             else:
                 found, there = cl.lookup(pyctx, c["path"])
-                if obs["r"] != exp["r"] or (found and obs["r"] is not there):
+                if not found and (type(obs["r"]) is not type(dflt) or obs["r"] != dflt):
+                    self.fail("get_recursively:%s:default-not-returned" % name, rec, context=snap, keys=keys,
+                              observed=repr(obs["r"]), default=repr(dflt))
+                elif obs["r"] != exp["r"] or (found and obs["r"] is not there):
                     self.fail("get_recursively:%s:wrong-value" % name, rec, context=snap, keys=keys,
                               observed=obs["r"], expected=exp["r"])
             if pyctx != snap:
                 self.fail("get_recursively:context-changed", rec, context=snap, after=pyctx)
+
+    def key_dicts(self, c):
+        """dictionaries for the key notation described by the call: [(description, dictionary)]"""
+        path, uk, lvl = c["path"], c["uk"], c["lvl"]
+        out = []
+        for extra_first in ((False, True) if lvl else (False,)):
+            for extra_val in (("x", {"y": "z"}) if lvl else (None,)):
+                if uk == "kd-str":
+                    cur, keys = path[-1], path[:-1]
+                elif uk == "kd-nonstr":
+                    cur, keys = 5, path
+                else:
+                    cur, keys = {}, path
+                for depth in range(len(keys), 0, -1):
+                    k = keys[depth - 1]
+                    if depth == lvl:
+                        cur = {"zz": extra_val, k: cur} if extra_first else {k: cur, "zz": extra_val}
+                    else:
+                        cur = {k: cur}
+                out.append(("extra key %s at level %d" % ("first" if extra_first else "last", lvl) if lvl else uk, cur))
+        return out
+
+    def rp_getd(self, group, val):
+        rec = group[0]
+        c = rec["call"]
+        dflt = cl.default_object(c["o"]["dv"], Default())
+        special = {"$default": dflt}
+        allowed = []
+        for r in group:
+            o = r["out"]
+            if o["ok"]:
+                allowed.append(("ok", cl.decode_s(o["r"], val, special)))
+            else:
+                allowed.append(("exc", o["exc"]))
+        for what, kd in self.key_dicts(c):
+            pyctx = cl.decode_s(rec["ctx"], val, special, self.rnd)
+            snap = copy.deepcopy(pyctx)
+            kd_snap = copy.deepcopy(kd)
+            if c["dflt"]:
+                obs = observe(lambda: self.fns.get_recursively(pyctx, kd, dflt))
+            else:
+                obs = observe(lambda: self.fns.get_recursively(pyctx, kd))
+            self.ncalls += 1
+            if obs["ok"]:
+                good = any(k == "ok" and v == obs["r"] for k, v in allowed)
+                if good and not cl.lookup(snap, c["path"])[0]:
+                    good = type(obs["r"]) is type(dflt)         # the default itself (0 is not False)
+                kind = "accepted" if not any(k == "ok" for k, _ in allowed) else "wrong-value"
+            else:
+                good = ("exc", obs["exc"]) in allowed
+                kind = "raised:" + obs["exc"]
+            if not good:
+                level = ("two-keys-at-level-%d" % c["lvl"]) if c["lvl"] else c["uk"]
+                self.fail("get_recursively:key-dictionary:%s:%s" % (level, kind), rec, context=snap, keys=repr(kd),
+                          observed=repr(obs)[:120], allowed=repr(allowed)[:200])
+            if pyctx != snap or kd != kd_snap:
+                self.fail("get_recursively:key-dictionary:argument-changed", rec, context=snap, keys=repr(kd_snap))
 
     def rp_contains(self, rec, val):
         c = rec["call"]
@@ -294,7 +354,7 @@ class Replay(object):
         if o["value"]:
             kwargs["value"] = True
         if o["def"]:
-            kwargs["default"] = special["$default"]
+            kwargs["default"] = cl.default_object(o["dv"], special["$default"])
         if o["skip"]:
             kwargs["skip_on_missing"] = True
         if o["raise"]:
@@ -465,7 +525,35 @@ class Replay(object):
             elif found and isinstance(stored, list):
                 stored.append("changed-later")
 
+        if op == "format":
+            text = cl.template_text(c["tpl"])
+            made = observe(lambda: self.fns.format_context(text))
+            if not made["ok"]:
+                self.fail("format_context:raised:%s" % made["exc"], rec, template=text)
+                return
+            fmt = made["r"]
+            for j in range(len(flow)):
+                pyctx = cl.decode_s(flow[j], val, {}, self.rnd)
+                snap = copy.deepcopy(pyctx)
+                obs = observe(lambda: fmt(pyctx))
+                self.ncalls += 1
+                exp = rec["results"][j]["out"]
+                if not exp["ok"]:
+                    if obs["ok"] or obs["exc"] != exp["exc"]:
+                        self.fail("format_context(formatter reused):%s" % (obs.get("exc") or "no-" + exp["exc"]), rec,
+                                  context=snap, template=text, value_number=j, flow=flow, observed=repr(obs)[:120])
+                        return
+                else:
+                    want = render(exp["r"], pyctx, c["tpl"], lambda v: "{}".format(v))
+                    if not obs["ok"] or obs["r"] != want:
+                        self.fail("format_context(formatter reused):wrong-string", rec, context=snap, template=text,
+                                  value_number=j, flow=flow, observed=repr(obs)[:120], expected=want)
+                        return
+                if pyctx != snap:
+                    self.fail("format_context:context-changed", rec, context=snap, after=pyctx)
+            return
         if op == "update":
+            pristine_default = cl.default_object(c["o"]["dv"], ["dflt"])
             dflt = copy.deepcopy(pristine_default)
             update, kwargs = self.update_args(c, val, {"$default": dflt})
             subctx = ".".join(path)
@@ -596,6 +684,8 @@ class Replay(object):
                 self.rp_flow(group, val)
             elif op == "get":
                 self.rp_get(rec, val)
+            elif op == "getd":
+                self.rp_getd(group, val)
             elif op == "contains":
                 self.rp_contains(rec, val)
             elif op == "s2d":
@@ -652,7 +742,7 @@ def random_trace(ctx, fns, lena, fails, n):
     for _, _, ctors in cl.PYCLASSES:
         leaves.extend(ctors)
     leaves.extend([lambda: "b", lambda: "c", lambda: "y", lambda: 3, lambda: [2]])
-    noopts = {"value": False, "def": False, "skip": False, "raise": False, "rec": True}
+    noopts = {"value": False, "def": False, "skip": False, "raise": False, "rec": True, "dv": "obj"}
     trace = []
 
     def rpath(d, lo=0, hi=4):
@@ -682,12 +772,44 @@ def random_trace(ctx, fns, lena, fails, n):
         snap = copy.deepcopy(d)
         dflt = Default()
         enc = cl.EncoderS([(dflt, cl.DEFAULT_LEAF)], by_eq=True)
-        call = {"op": "", "path": [], "dflt": False, "tpl": [], "uk": "none", "uv": cl.EMPTY, "o": dict(noopts)}
+        call = {"op": "", "path": [], "dflt": False, "tpl": [], "uk": "none", "uv": cl.EMPTY, "o": dict(noopts), "lvl": 0}
         x = rnd.random()
         rs = cl.EMPTY
         reuse = None        # (element, pristine copy of a simple update value)
         try:
-            if x < 0.2:
+            if x < 0.06:
+                # a key dictionary, possibly with two keys at some level or ending in a non-string
+                call["op"], call["path"], call["dflt"] = "getd", rpath(d, 1, 4), rnd.random() < 0.4
+                call["uk"] = rnd.choice(["kd-empty", "kd-nonstr"] + (["kd-str"] if len(call["path"]) >= 2 else []))
+                nlev = len(call["path"]) - (1 if call["uk"] == "kd-str" else 0)
+                call["lvl"] = rnd.randint(0, nlev) if rnd.random() < 0.6 else 0
+                what, k = rnd.choice(Replay.key_dicts(None, call))
+                before = enc.enc(snap)
+                obs = observe(lambda: fns.get_recursively(d, k, dflt) if call["dflt"] else fns.get_recursively(d, k))
+            elif x < 0.12:
+                # one formatter, several contexts
+                call["op"], call["uk"], call["tpl"] = "format", "str", rtpl(d)
+                text = cl.template_text(call["tpl"])
+                fmt = fns.format_context(text)
+                toks = [{"t": "lit", "s": t["s"]} if t["t"] == "lit" else {"t": "val"} for t in call["tpl"]]
+                for again in range(3):
+                    d2 = copy.deepcopy(snap)
+                    if again:
+                        for k in rnd.sample(keys, 2):
+                            if rnd.random() < 0.5:
+                                d2.pop(k, None)
+                            else:
+                                d2[k] = rnd.choice(leaves)() if rnd.random() < 0.5 else cl.random_dict(rnd, keys, 2, leaves)
+                    snap2 = copy.deepcopy(d2)
+                    enc2 = cl.EncoderS()
+                    before2 = enc2.enc(snap2)
+                    o2 = observe(lambda: fmt(d2))
+                    out2 = {"ok": True, "r": enc2.enc(o2["r"])} if o2["ok"] else {"ok": False, "exc": o2["exc"]}
+                    rs2 = enc2.enc(render(toks, snap2, call["tpl"], lambda v: "{}".format(v)))
+                    trace.append({"call": copy.deepcopy(call), "ctx": before2, "out": out2, "post": enc2.enc(d2),
+                                  "rs": rs2})
+                continue
+            elif x < 0.2:
                 call["op"], call["path"], call["dflt"] = "get", rpath(d), rnd.random() < 0.4
                 name, k = rnd.choice(cl.key_notations(call["path"]))
                 before = enc.enc(snap)
@@ -846,7 +968,8 @@ def repo_trace(ctx):
 
 def trace_key(r):
     c = r["call"]
-    what = {"get": "get_recursively", "contains": "contains", "update": "UpdateContext",
+    what = {"get": "get_recursively", "getd": "get_recursively(key dictionary)", "format": "format_context",
+            "contains": "contains", "update": "UpdateContext",
             "delete": "DeleteContext", "fuw": "format_update_with"}.get(c["op"], c["op"])
     got = "returned" if r["out"]["ok"] else r["out"]["exc"]
     return "%s:%s" % (what, got)
